@@ -48,6 +48,8 @@ MID = [
     " In <i>State</i> we held.",
     " In <i>bar</i> we held.",
     " <i>Foo v.\n Bar</i> again.",
+    "</p><p><i>Bar</i> again.",
+    " (<em>Bar,</em> dissenting).",
     "",
 ]
 END = ["</p>", "</p></div>", ""]
